@@ -9,7 +9,11 @@ import (
 	"strings"
 	"time"
 
+	"syscall"
+
+	"github.com/internetarchive/Zeno/internal/pkg/config"
 	"github.com/internetarchive/Zeno/internal/pkg/controler/pause"
+	"github.com/internetarchive/Zeno/internal/pkg/controler/watchers"
 	"github.com/internetarchive/Zeno/internal/verif/lib/world"
 	"github.com/internetarchive/Zeno/internal/verif/vrt/hkit"
 	"github.com/internetarchive/Zeno/internal/verif/vrt/vsched"
@@ -20,6 +24,14 @@ const propID = "C14"
 const H = "http://s.example"
 
 type scen struct {
+	// Watchers: instead of scripted controllers, the two real watchdogs (disk space, WARC writing
+	// queue) and the operator's toggle are the controllers; StopAt is the virtual second at which
+	// the real stop order begins, Operator the second at which the operator toggles pause (0 = never)
+	Watchers bool `json:"watchers,omitempty"`
+	StopAt   int  `json:"stop_at,omitempty"`
+	Operator int  `json:"operator,omitempty"`
+	F        int  `json:"f,omitempty"`
+
 	Scripts []string `json:"scripts"` // one per controller, over {P,R}
 	Stop    bool     `json:"stop"`    // a shutdown thread runs the stop sequence once the controllers are done
 	Seeds   int      `json:"seeds"`
@@ -28,6 +40,9 @@ type scen struct {
 }
 
 func (s *scen) name() string {
+	if s.Watchers {
+		return fmt.Sprintf("watchers stop-at=%ds operator-at=%ds w%d", s.StopAt, s.Operator, s.Workers)
+	}
 	return fmt.Sprintf("scripts=%s stop=%v seeds=%d w%d", strings.Join(s.Scripts, "|"), s.Stop, s.Seeds, s.Workers)
 }
 
@@ -61,8 +76,22 @@ func scenario(s *scen) *vsched.Scenario {
 	d := site()
 	d.Seeds = d.Seeds[:s.Seeds]
 	sc.Setup = func(x *vsched.Exec) {
-		w = world.New(world.Options{Workers: s.Workers, MaxConcurrentAssets: 1, MaxRetry: 0, MaxRedirect: 1, Tmp: os.Getenv("VERIF_TMP")}, d.Build())
+		w = world.New(world.Options{Workers: s.Workers, MaxConcurrentAssets: 1, MaxRetry: 0, MaxRedirect: 1, AsyncWARC: s.Watchers, Tmp: os.Getenv("VERIF_TMP")}, d.Build())
 		o = &obs{}
+		if s.Watchers {
+			watchers.VerifC14Reset()
+			config.Get().WARCPoolSize = 1
+			config.Get().WARCQueueSize = -1
+			config.Get().MinSpaceRequired = 1 // GiB
+			vsched.StatfsAnswer = func(path string, st *syscall.Statfs_t) error {
+				st.Bsize, st.Blocks = 4096, 1<<30
+				st.Bavail = 1 << 29 // 2 TiB free
+				if vsched.Choose("h:the disk is almost full at this tick", 2) == 1 {
+					st.Bavail = 10
+				}
+				return nil
+			}
+		}
 		x.Data = o
 	}
 	sc.Body = func() {
@@ -71,6 +100,15 @@ func scenario(s *scen) *vsched.Scenario {
 		// (first watchdog tick after 1-5 s): Subscribe concurrent with Pause is not in the alphabet
 		need := 4 * s.Workers
 		vsched.Block("h:wait until every stage worker has subscribed", nil, func() bool { return pause.VerifSubscribers() >= need })
+		if s.Watchers {
+			watcherBody(s, w, o)
+			for i, u := range d.Seeds {
+				if err := w.Insert(fmt.Sprintf("seed%d", i), u); err != nil {
+					return
+				}
+			}
+			return
+		}
 		ctlWG := make(chan struct{}, len(s.Scripts))
 		for ci, script := range s.Scripts {
 			ci, script := ci, script
@@ -115,6 +153,9 @@ func scenario(s *scen) *vsched.Scenario {
 	}
 	sc.Done = func(x *vsched.Exec) bool { return false }
 	sc.Idle = func(p string) bool { return world.IsIdlePoint(p) || strings.Contains(p, "recv ctlWG") }
+	if s.Watchers {
+		s.Stop = true
+	}
 	sc.Horizon = 10 * time.Minute
 	sc.DelayBounding = true
 	sc.OKEnds = []string{vsched.EndQuiescent, vsched.EndDeadlock, vsched.EndDone}
@@ -126,6 +167,54 @@ func scenario(s *scen) *vsched.Scenario {
 	sc.Signature = sig
 	sc.KnownSig = func(sg string) bool { return hkit.IsListed(propID, sg) }
 	return sc
+}
+
+// watcherBody starts the real watchdogs, a WARC queue that fills at 3 s and drains at 8 s, the
+// operator's toggle and the real stop order.
+func watcherBody(s *scen, w *world.World, o *obs) {
+	os.MkdirAll(w.JobDir(), 0o755)
+	go watchers.WatchDiskSpace(w.JobDir(), 5*time.Second)
+	watchers.StartWatchWARCWritingQueue(time.Second, 2*time.Second, 250*time.Millisecond)
+	drained := make(chan struct{})
+	go func() { // the WARC writers fall behind, then catch up
+		time.Sleep(3 * time.Second)
+		w.Client().WaitGroup.Add(3)
+		time.Sleep(5 * time.Second)
+		for i := 0; i < 3; i++ {
+			w.Client().WaitGroup.Done()
+		}
+		close(drained)
+	}()
+	if s.Operator > 0 {
+		go func() { // the operator's pause/unpause button (ui/menu.go)
+			time.Sleep(time.Duration(s.Operator) * time.Second)
+			c := &call{Ctl: 9, Op: 'P', Inv: vsched.Cur().StepIndex(), Ret: -1, Paused: pause.IsPaused()}
+			if c.Paused {
+				c.Op = 'R'
+			}
+			o.mu.Lock()
+			o.calls = append(o.calls, c)
+			o.mu.Unlock()
+			if c.Paused {
+				pause.Resume()
+			} else {
+				pause.Pause()
+			}
+			o.mu.Lock()
+			c.Ret = vsched.Cur().StepIndex()
+			o.mu.Unlock()
+		}()
+	}
+	go func() { // controler.stopPipeline
+		time.Sleep(time.Duration(s.StopAt) * time.Second)
+		watchers.StopDiskWatcher()
+		watchers.StopWARCWritingQueueWatcher()
+		<-drained // archiver.Stop waits for the (uninstrumented) writers: model them as done by then
+		w.Stop()
+		o.mu.Lock()
+		o.stopReturned = true
+		o.mu.Unlock()
+	}()
 }
 
 func isWorker(name string) bool { return strings.Contains(name, ".worker") }
@@ -283,6 +372,12 @@ func scenarios(tier string) []scen {
 			out = append(out, scen{Scripts: []string{a}, Seeds: 1, Workers: 1, P: P})
 		}
 	}
+	// the real watchdogs and the operator as independent controllers, then the real stop order
+	for _, stopAt := range []int{4, 12, 23} {
+		for _, op := range []int{0, 6, 11} {
+			out = append(out, scen{Watchers: true, StopAt: stopAt, Operator: op, Seeds: 1, Workers: 1, P: P - 1, F: P})
+		}
+	}
 	// shutdown after the controllers: paused or not
 	for _, a := range []string{"", "P", "PR", "PRP"} {
 		out = append(out, scen{Scripts: []string{a}, Stop: true, Seeds: 1, Workers: 1, P: P})
@@ -330,7 +425,7 @@ func main() {
 		if err := vsched.DeterminismCheck(sc); err != nil {
 			hkit.EngineError("%v", err)
 		}
-		rep := vsched.Explore(sc, vsched.Bounds{P: s.P, MaxWall: maxWall})
+		rep := vsched.Explore(sc, vsched.Bounds{P: s.P, F: s.F, MaxWall: maxWall})
 		if len(rep.Sample) > 60 {
 			rep.Sample = rep.Sample[:60]
 		}
